@@ -11,6 +11,7 @@ var stdAssumptions = []string{
 // expectedReach lists, per property, the reach counters that a healthy run of
 // the check should see above zero; those at zero are reported as blind spots.
 var expectedReach = map[string][]string{
+	"C08": {"map.range", "map.range.permuted", "job.separate-process", "job.reused-compiler-with-history", "job.same-program-twice-on-one-instance"},
 	"C14": {"roundtrip.mpclc", "roundtrip.bristol", "file>4KiB", "rejected-with-error", "accepted-well-formed", "discarded: declared size above one million"},
 	"C04": {"whole-circuit.transcripts-scanned", "streaming.transcripts-scanned", "sha2pc.transcripts-scanned"},
 	"C18": {"curve.P-256", "curve.P-224", "curve.P-384", "mixing.rejected", "mixing.other-curve", "mixing.sizes-compared", "mutation.rejected", "mutation.still-decodes", "round3.other-length-refused"},
@@ -26,6 +27,12 @@ var expectedReach = map[string][]string{
 }
 
 var props = map[string]propCfg{
+	"C08": {
+		Variant: "c08", Quick: 30 * time.Second, Thorough: 12 * time.Minute, Level: "exploration", DetSample: 12,
+		Rule:        "one case = one program (crafted programs importing 3-4 library packages with package-level variables and constants 3/8; testsuite and example programs 3/8; generated MPCL programs 2/8) and one parameter set (prune on/off, Yao/GMW), compiled in 2..3 jobs: every `range` over a map in the compile path (compiler, ast, ssa, circuits, utils, mpa, types, circuit; build variant c08) iterates in a tape-chosen order (canonical, reversed, rotated, shuffled), each job after a tape-chosen history (0..3 earlier compilations of other programs; one reused compiler.Compiler value or fresh ones; one shared or fresh Params; the program itself twice on one instance), and 1/4 of the cases run the last job in a separate worker process; oracle: Circuit.Marshal bytes, MarshalBristol bytes, SSA listing and input/output description identical across the jobs; non-trivial = at least one map range was permuted; distinct = distinct SHA-256 of the event log (program, artefact hashes, map-order decisions)",
+		Components:  map[string]string{"compiler, ast, ssa, circuits, mpa, types, circuit.Marshal*": "real code (map ranges rewritten to the simulator's permuting iterator)", "map iteration order, process boundary": "simulator / child worker process"},
+		Assumptions: append([]string{"map iteration orders are permutations of a canonical key order; maps with pointer keys cannot be ordered canonically and keep Go's native order (counted in reach counter map.range.unsortable-key)"}, stdAssumptions...),
+	},
 	"C14": {
 		Quick: 20 * time.Second, Thorough: 8 * time.Minute, Level: "fault_enumeration",
 		Rule:        "one case = (a) round trip: a generated circuit with a rich I/O signature (empty/long/odd names, int/uint/bool/array/struct types with compound members, headers above 4 KiB) written in mpclc or Bristol format to the simulated disk (write, sync, crash), read back through a reader with tape-chosen read sizes (whole, 1 byte, random, at most k around 4096), parsed, compared (gates, counts, signature, sampled truth tables) and written again (same bytes); or (b) damaged file: 100..1000 faults on a valid file - a window of consecutive truncation lengths and single-bit flips, byte flips biased to the header, extension by records of another valid file / a copy of an own gate record / random bytes, splices from another valid file, count/length fields set to boundary values, double faults - each parsed under recover with the property's precondition (declared sizes <= 10^6, checked by the harness's own scan) and judged: error, or a circuit whose gate inputs are defined before use, all wires assigned, NumGates == len(Gates); panic and hang (20 s wall clock, the only time-based verdict) are violations; non-trivial = every case; distinct = distinct SHA-256 of the event log",
